@@ -174,7 +174,9 @@ impl CodePage {
         if *self == CodePage::UsAscii {
             ascii_decode(bytes)
         } else {
-            self.encoding().decode(bytes).0.into_owned()
+            // Not `Encoding::decode`, which sniffs for a byte order mark and,
+            // if it finds one, strips it and may switch to another encoding.
+            self.encoding().decode_without_bom_handling(bytes).0.into_owned()
         }
     }
 
